@@ -8,11 +8,15 @@ final `SUMMARY` line.
 import Drv.Codec
 import Drv.Side
 import Drv.Send
+import Drv.Pipe
+import Drv.PipeSpec
 open GoStd Driver
 
 structure DrvState where
   side : SideState := {}
   send : SendState := {}
+  pipe : PipeWorld := {}
+  pipeSpec : PipeSpecState := {}
 
 def execOp (st : DrvState) (toks : List String) : DrvState × String :=
   match toks with
@@ -22,6 +26,10 @@ def execOp (st : DrvState) (toks : List String) : DrvState × String :=
   | "send" :: op :: args =>
     let (s', out) := execSend st.send op args
     ({ st with send := s' }, out)
+  | "pipe" :: op :: args =>
+    let (w', out) := execPipe st.pipe op args
+    ({ st with pipe := w' }, out)
+  | "wire" :: _ => (st, "skip")     -- wire stage: real sockets and goroutines; oracles only
   | stream :: op :: args =>
     if ["rr", "route", "res", "pins", "pool"].contains stream then
       let (s', out) := execSide st.side stream op args
@@ -47,6 +55,7 @@ def specStateful (st : DrvState) (toks impl : List String) : DrvState × List St
 def specOp (toks expect : List String) (impl : List String) : List String :=
   match expect with
   | [] => []
+  | ["weak"] => []
   | sp :: kind :: fields =>
     let id := (sp.splitOn "=").getD 1 "?"
     match kind with
@@ -79,7 +88,12 @@ partial def loop (ops impl : Array String) (i : Nat) (st : DrvState) (out : IO.F
     out.putStrLn modelOut
     let mut d := diffs
     let mut s := specs
-    if modelOut != implLine then
+    -- "# weak": outside every domain; only crash-freedom is compared
+    let weak := (line.splitOn " # ").any (fun seg => (words seg).head? == some "weak")
+    let differs := if modelOut == "skip" then false
+      else if weak then implLine.startsWith "panic" || implLine == "<missing>"
+      else modelOut != implLine
+    if differs then
       IO.println s!"DIFF {i + 1}"
       d := d + 1
     for f in obsErrs do
@@ -87,12 +101,20 @@ partial def loop (ops impl : Array String) (i : Nat) (st : DrvState) (out : IO.F
       s := s + 1
     -- several oracles may be chained with " # "
     let segs := (line.splitOn " # ").drop 1
+    let mut st'' := st'
     for seg in segs do
-      for f in specOp toks (words seg) (words implLine) do
-        IO.println s!"SPEC {i + 1} {f}"
-        s := s + 1
+      if toks.head? == some "pipe" || toks.head? == some "wire" then
+        let (ps, errs) := specPipeSeg st''.pipeSpec toks (words seg) (words implLine)
+        st'' := { st'' with pipeSpec := ps }
+        for f in errs do
+          IO.println s!"SPEC {i + 1} {f}"
+          s := s + 1
+      else
+        for f in specOp toks (words seg) (words implLine) do
+          IO.println s!"SPEC {i + 1} {f}"
+          s := s + 1
     let _ := expect
-    loop ops impl (i + 1) st' out d s
+    loop ops impl (i + 1) st'' out d s
   else
     return (diffs, specs)
 
